@@ -43,6 +43,7 @@ func C19(c *core.Ctx) {
 			})
 		}
 	}
+	ruleRuntimeTypesTotal(c)
 	c.Floor("families", c.Counts["members"], 300, "family members")
 	c.Floor("methods", c.Counts["unmarshal_methods"], 600, "emitted methods analysed")
 }
